@@ -848,3 +848,100 @@ func ruleIndentSibling(c *Ctx) []Obligation {
 	}
 	return obs
 }
+
+// ---------------------------------------------------------------- INDENT.SHORT (from hunt/h2/C20)
+
+func init() {
+	register(&Rule{Name: "INDENT.SHORT", Props: []string{"C20"}, Floor: 2,
+		Doc: "a short write is never taken for a complete one (the underlying count is compared with the length handed down also when no error came back), and on the failure path the partial-line state is recomputed from that count",
+		Run: ruleIndentShort})
+}
+
+func ruleIndentShort(c *Ctx) []Obligation {
+	const R = "INDENT.SHORT"
+	m, why := c.indentModel()
+	if m == nil {
+		return []Obligation{undecided(R, "indent writer model", "-", why)}
+	}
+	var cnt, errv ssa.Value
+	for _, r := range *m.under.Referrers() {
+		if ex, isEx := r.(*ssa.Extract); isEx {
+			if ex.Index == 0 {
+				cnt = ex
+			} else {
+				errv = ex
+			}
+		}
+	}
+	var obs []Obligation
+	// (a) the count is compared with the length of what was handed down on a path where the error is nil (or regardless
+	// of the error)
+	con := fmt.Sprintf("%s: a short count without an error is not reported as complete", c.FnName(m.write))
+	arg := m.under.Call.Args[0]
+	isLenOfArg := func(v ssa.Value) bool {
+		call, isC := v.(*ssa.Call)
+		if !isC || len(call.Call.Args) != 1 {
+			return false
+		}
+		b, isB := call.Call.Value.(*ssa.Builtin)
+		return isB && b.Name() == "len" && call.Call.Args[0] == arg
+	}
+	checked := false
+	var at ssa.Instruction
+	if cnt != nil {
+		eachInstr(m.write, func(in ssa.Instruction) {
+			bo, isB := in.(*ssa.BinOp)
+			if !isB {
+				return
+			}
+			switch bo.Op {
+			case token.LSS, token.GEQ, token.NEQ, token.EQL, token.LEQ, token.GTR:
+			default:
+				return
+			}
+			if !(bo.X == cnt && isLenOfArg(bo.Y) || bo.Y == cnt && isLenOfArg(bo.X)) {
+				return
+			}
+			// not only on the path where an error came back anyway
+			onlyOnErr := false
+			for _, g := range guardsAt(bo.Block()) {
+				if x, isEq, okn := nilTest(g.Cond); okn && x == errv && isEq != g.Branch {
+					onlyOnErr = true
+				}
+			}
+			if !onlyOnErr {
+				checked = true
+				at = bo
+			}
+		})
+	}
+	if checked {
+		obs = append(obs, ok(R, con, c.InstrPos(at), "the underlying count is compared with len(output) when the error is nil"))
+	} else {
+		obs = append(obs, bad(R, con, c.InstrPos(m.under), "the count of the underlying writer is looked at only when it also returned an error: a writer that accepts part of the output and returns a nil error makes Write report the whole argument as written"))
+	}
+	// (b) on the failure path the flag is stored again, from a value computed from the count
+	con = fmt.Sprintf("%s: after a short write the partial-line state follows the bytes that got out", c.FnName(m.write))
+	follows := false
+	for _, st := range c.storesToFieldDeep(m.write, m.fPartial) {
+		if st.Parent() != m.write || !dominates(m.under, st) {
+			continue
+		}
+		fromCount := false
+		operandClosure(st.Val, func(x ssa.Value) {
+			if x == cnt && cnt != nil {
+				fromCount = true
+			}
+		})
+		if fromCount {
+			follows = true
+			at = st
+		}
+	}
+	if follows {
+		obs = append(obs, ok(R, con, c.InstrPos(at), "the flag is stored after the underlying write from a value computed from its count"))
+	} else {
+		obs = append(obs, bad(R, con, c.InstrPos(m.under), "the flag is set from the output that was intended and never corrected: after a short write the caller continues with the bytes that were not counted, and they come out without the indent of their line, or with an indent in the middle of a line"))
+	}
+	return obs
+}
